@@ -28,6 +28,7 @@
 //@ ob rp_cmpRP_pattern entry=h_cmpRP enforce=RePair__extractStringAndCompareRP replace=LogSequence__getField,RePair__expandRuleAndCompareString loops tier=P props=C14,C07 kind=statement timeout=600
 //@ ob rp_expandRule entry=h_expand tier=B props=C20,C07 kind=statement unwind=5 foreach=NRULES:1-2 timeout=900 defs=-DREAL_GETFIELD
 //@ ob rp_expandRule3 entry=h_expand tier=B props=C20,C07 kind=statement unwind=9 timeout=3600 mem=30 defs=-DREAL_GETFIELD,-DNRULES=3 only=thorough
+//@ ob rp_expandCompare entry=h_expcmp tier=B props=C20,C02,C01 kind=statement unwind=7 foreach=NRULES:1-2 timeout=900 defs=-DREAL_GETFIELD,-DREAL_COMPARE
 //@ ob rp_bits entry=h_bits tier=C props=C20 kind=statement unwind=34
 //@ ob rp_saveload entry=h_rp_sl tier=C props=C20,C06,C08 kind=statement unwind=20 foreach=ENC:0-1
 size_t gk;
@@ -37,8 +38,12 @@ size_t gk;
 void DAC_VLS__save(DAC_VLS *this, struct vstream *fp);
 DAC_VLS *DAC_VLS__load(struct vstream *fp);
 /* TRUSTED: interface contracts used by the pattern-preservation obligation: the packed sequence returns some symbol; the recursive comparison moves *pos and writes nothing else (its own frame is the same shape; it never writes through str) */
+#ifndef REAL_COMPARE
 int RePair__expandRuleAndCompareString(RePair *this, uint rule, uchar *str, uint *pos)
 __CPROVER_requires(__CPROVER_rw_ok(pos, sizeof(uint))) __CPROVER_ensures(1) __CPROVER_assigns(*pos);
+#else
+int RePair__expandRuleAndCompareString(RePair *this, uint rule, uchar *str, uint *pos);
+#endif
 #ifdef REAL_GETFIELD
 size_t LogSequence__getField(LogSequence *this, size_t position);
 #else
@@ -85,6 +90,42 @@ void h_expand(void) {
   uint in_k; __CPROVER_assume(in_k < len);
   __CPROVER_assert(out[in_k] == ref[in_rule][in_k], "C20: expansion reproduces the symbols of the rule");
   __CPROVER_assert(out[in_k] != 0, "C20: no rule expands to the terminator symbol");
+  REACH_POINT();
+}
+#ifdef REAL_COMPARE
+/* the real body under its real name (the lowered copy is renamed so that the P-tier obligation can replace the call by a contract) */
+int RePair__expandRuleAndCompareString(RePair *this, uint rule, uchar *str, uint *pos) { return RePair__expandRuleAndCompareString_real(this, rule, str, pos); }
+#endif
+/* C20/C02 (bounded): comparing a pattern with the expansion of a rule, without materialising it, agrees with comparing
+ * it with the reference expansion: 0 iff the expansion occurs at *pos (and *pos moves past it), otherwise the sign of
+ * the first difference */
+void h_expcmp(void) {
+  static size_t words[1]; LogSequence g; g.numbits = 8; g.numentries = 2 * NRULES; g.arraysize = 1; g.maxval = 255; g.array = words;
+  RePair rp; rp.G = &g; rp.terminals = T; rp.rules = NRULES; rp.maxchar = T;
+  uint in_sym[2 * NRULES];
+  uchar ref[NRULES][MAXEXP]; uint reflen[NRULES];
+  for (int r = 0; r < NRULES; r++) {
+    uint n = 0;
+    for (int side = 0; side < 2; side++) {
+      uint x = in_sym[2 * r + side];
+      __CPROVER_assume(x >= 1 && x < T + (uint)r);
+      LogSequence__set_field(&g, words, 8, 2 * r + side, x);
+      if (x < T) ref[r][n++] = (uchar)x;
+      else { uint q = x - T; for (uint k = 0; k < MAXEXP; k++) if (k < reflen[q]) ref[r][n++] = ref[q][k]; }
+    }
+    reflen[r] = n;
+  }
+  uint in_rule; __CPROVER_assume(in_rule < NRULES);
+  uchar in_str[MAXEXP + 2]; in_str[MAXEXP + 1] = T;       /* the caller's sentinel (maxchar) ends every comparison */
+  for (int k = 0; k <= MAXEXP; k++) __CPROVER_assume(in_str[k] <= T);
+  uint in_len; __CPROVER_assume(in_len <= MAXEXP); in_str[in_len] = T;
+  uint pos = 0;
+  int cmp = RePair__expandRuleAndCompareString(&rp, in_rule, in_str, &pos);
+  int expect = 0; uint j = 0;
+  for (uint k = 0; k < MAXEXP; k++) if (expect == 0 && k < reflen[in_rule]) { if (ref[in_rule][k] != in_str[k]) expect = (int)ref[in_rule][k] - (int)in_str[k]; else j++; }
+  __CPROVER_assert((cmp == 0) == (expect == 0), "C20/C02: the rule compares equal exactly when its expansion occurs in the pattern");
+  __CPROVER_assert(expect == 0 || ((cmp > 0) == (expect > 0)), "C20: otherwise the sign of the first difference is returned");
+  __CPROVER_assert(expect != 0 || pos == reflen[in_rule], "C20: on a match the position moves past the expansion");
   REACH_POINT();
 }
 /* C20: the number of bits reported for a symbol suffices for every terminal and rule identifier (32-bit sums) */
